@@ -369,6 +369,19 @@ def extract():
             or "SITE_DEPLOYMENT_PLACEHOLDER" not in gsrc:
         raise ExtractError(f"{rel}: generate_propagating_params: pattern not recognised")
 
+    # the sampling call: `<frame>.sample(n_samples)` — one positional argument, no `replace=` / `weights=`
+    gi = _find_method(tree, "Infrastructure", "generate_infrastructure", rel)
+    sample_calls = [n for n in ast.walk(gi) if isinstance(n, ast.Call) and isinstance(n.func, ast.Attribute)
+                    and n.func.attr == "sample"]
+    if len(sample_calls) != 1:
+        raise ExtractError(f"{rel}: generate_infrastructure: expected exactly one `<frame>.sample(...)` call, "
+                           f"found {[ast.unparse(c) for c in sample_calls]}")
+    # a changed call shape is not an extraction failure: it is reported as a broken obligation and the
+    # worlds built in the same run show whether the sample is still n distinct rows
+    sample_plain = (len(sample_calls[0].args) == 1 and not sample_calls[0].keywords
+                    and isinstance(sample_calls[0].args[0], ast.Name))
+    sample_call = ast.unparse(sample_calls[0])
+
     placeholders = repo.gc["Placeholder_Constants"]
     tables = {
         "globalPlain": list(VW["PROPAGATING_PARAMS"].keys()),
@@ -409,6 +422,8 @@ def extract():
             for lvl, ns in (("site_type", T), ("sites", S), ("equipment", E), ("sources", R))
         },
         "sourceFile": {n: v for n, v in R.items() if isinstance(v, str)},
+        "sampleCall": sample_call,
+        "samplePlain": sample_plain,
         "methSpecific": repo.pdc["Common_Params"]["METH_SPECIFIC"],
         "values": repo.pdc["Common_Params"]["VAL"],
     }
